@@ -7,6 +7,7 @@ import (
 	"math"
 	"strings"
 	"testing"
+	"time"
 	"verif/h/vsel"
 
 	"github.com/simpleiot/simpleiot/client"
@@ -168,7 +169,8 @@ func c08Body(t *testing.T, depth int, order bool, churn ...bool) mc.Body {
 			var markers []float64
 			classified := !isChurn
 			gkLive := true
-			unclassified := map[int]bool{} // steps whose write hit the grandchild while it was deleted
+			lastTimes := map[string]time.Time{} // identity -> time of its newest point so far
+			unclassified := map[int]bool{}      // steps whose write hit the grandchild while it was deleted
 			for d := 0; d < depth; d++ {
 				b := alpha[x.Choose(len(alpha), "batch")]
 				if (b.churn == 1 && !gkLive) || (b.churn == 2 && gkLive) {
@@ -181,9 +183,18 @@ func c08Body(t *testing.T, depth int, order bool, churn ...bool) mc.Body {
 				marker := float64(100 + d)
 				pts := b.pts(marker)
 				early := order && x.Deviate(2, "next batch before quiescence") == 1
+				// timestamps are non-decreasing per identity: the batch may carry exactly the time of the batch before it
+				// (a tie: the store overwrites on ties, so the client must be told and both must agree afterwards)
+				sameTime := !isChurn && d > 0 && x.Choose(2, "timestamp: later than / equal to the newest point of the same identity") == 1
 				err := g.s.do(func() error {
 					for i := range pts {
-						pts[i].Time = g.tick()
+						id := fmt.Sprintf("%s|%v|%s|%s|%s", b.target, b.edge, b.parent, pts[i].Type, pts[i].Key)
+						if t0, ok := lastTimes[id]; sameTime && ok {
+							pts[i].Time = t0 // exactly the time of the newest point of this identity
+						} else {
+							pts[i].Time = g.tick()
+						}
+						lastTimes[id] = pts[i].Time
 					}
 					if b.churn != 0 {
 						return client.SendEdgePoints(g.inst.Nc, "GK", "K1", pts, true)
@@ -209,7 +220,11 @@ func c08Body(t *testing.T, depth int, order bool, churn ...bool) mc.Body {
 				if !early {
 					g.s.quiesce()
 				}
-				x.Logf("%s (marker %v)", b.name, marker)
+				if sameTime {
+					x.Logf("%s (marker %v, ties with the newest point of each identity)", b.name, marker)
+				} else {
+					x.Logf("%s (marker %v)", b.name, marker)
+				}
 				if b.churn != 0 {
 					gkLive = b.churn == 2
 				}
@@ -370,7 +385,7 @@ func TestC08(t *testing.T) {
 			depth = 3
 		}
 		r.Explore(mc.Config{Name: fmt.Sprintf("batch-sequences-d%d", depth), Serial: true, SplitDepth: 1, SelfCheckEvery: 53,
-			Rule: fmt.Sprintf("all sequences of %d batches over a 31-batch alphabet: author in {\"\", the client's id, a child's id, a sibling client's id, another party} x target in {client node, child, grand-child, unrelated sibling}, one- and two-point batches, batches the store refuses (NaN), edge-point batches on the client node's own edge, on the edge to its child and on the edge to its grand-child; each batch carries one origin and a unique marker; Points/EdgePoints callbacks of the instrumented client compared with the accepted history (told exactly once and in order for foreign changes in the subtree, never for its own), and the folded configuration compared with Decode of the store's node", depth)},
+			Rule: fmt.Sprintf("all sequences of %d batches over a 31-batch alphabet: author in {\"\", the client's id, a child's id, a sibling client's id, another party} x target in {client node, child, grand-child, unrelated sibling}, one- and two-point batches, batches the store refuses (NaN), edge-point batches on the client node's own edge, on the edge to its child and on the edge to its grand-child; each batch carries one origin and a unique marker, and its points are either later than everything before or carry exactly the time of the newest point of their identity (a tie); Points/EdgePoints callbacks of the instrumented client compared with the accepted history (told exactly once and in order for foreign changes in the subtree, never for its own), and the folded configuration compared with Decode of the store's node", depth)},
 			c08Body(t, depth, false))
 		r.Explore(mc.Config{Name: "delivery-order-d2", Serial: true, SplitDepth: 1, DevBound: 1,
 			Rule: "the same alphabet, sequences of 2 batches, with one scheduling deviation (another pending delivery first, or the second batch written before the system is quiescent)"},
